@@ -131,6 +131,9 @@ CFGS_QUICK = [
     dict(name='G1-reconnect', graph='G1', H=3600, dur=2 * 3600, sym_links=['PA', 'PB', 'VT'], closed=['P5'], controls=[('P3', 0), ('P3', 1)]),
     dict(name='G1-parallel-toggle', graph='G1', H=3600, dur=3600, sym_links=['P3', 'P5', 'PB'], controls=[('PA', 0), ('PB', 1)]),
     dict(name='G2-static', graph='G2', H=3600, dur=0, sym_links=['P1', 'PA', 'PB', 'PC', 'P3', 'P4'], controls=[]),
+    dict(name='G2-reopen-end-on-source-side', graph='G2', H=3600, dur=2 * 3600, sym_links=['PA', 'PC'], controls=[('P1', 0), ('P1', 1)]),
+    dict(name='G2-reopen-dead-end', graph='G2', H=3600, dur=2 * 3600, sym_links=['PB', 'P3'], controls=[('P4', 0), ('P4', 1)]),
+    dict(name='G1-tcv-in-cut-off-region', graph='G1', H=3600, dur=3600, sym_links=['PA', 'PB', 'P4'], closed=['P5'], controls=[('P1', 0), ('P1', 1)]),
     dict(name='G2-toggle', graph='G2', H=1800, dur=3600, sym_links=['PA', 'PC', 'P3'], controls=[('PB', 0), ('PB', 1)]),
 ]
 CFGS_THOROUGH = CFGS_QUICK + [
